@@ -60,7 +60,11 @@ func (d *Disk) ReadAt(p []byte, off int64) (int, error) {
 	if len(d.Touched) < 4096 {
 		d.Touched = append(d.Touched, [2]int{int(off), len(p)})
 	}
-	if d.failLo >= 0 && int(off) < d.failHi && int(off)+len(p) > d.failLo {
+	end := int(off) + len(p)
+	if end > len(d.Data) {
+		end = len(d.Data) // bytes past the end of the device cannot be bad
+	}
+	if d.failLo >= 0 && int(off) < d.failHi && end > d.failLo && int(off) < end {
 		// deliver the prefix before the bad range, then EIO
 		n := 0
 		if int(off) < d.failLo {
